@@ -214,7 +214,7 @@ def main():
         out_lines.append("KNOWN-FINDING: property=%s %s [%s/%s; reproduced %d times in this run]" % (
             prop, k["what"], k["clause"], k["bucket"], known_seen.get(key, 0)))
 
-    found_dir = os.path.join(VERIF, "found", prop)
+    found_dir = os.path.join(os.environ.get("PBT_FOUND") or os.path.join(VERIF, "found"), prop)
     vio_records = []
     for (clause, bucket), (message, case, rp) in sorted(violations.items()):
         if rp is None:
